@@ -7,6 +7,8 @@ import IclModel.Wire
 import IclModel.Base64
 import IclModel.Gen.Layouts
 import IclModel.Spec.Layouts
+import IclModel.Gen.Rules
+import IclModel.Spec.Rules
 open Icl Icl.Wire
 
 def findRec (n : String) : Option RecLayout := Gen.all.find? (fun L => L.name == n)
@@ -21,9 +23,9 @@ def handle (line : String) : String :=
   | ["atoi", h] => toString (parseNum (fromHex h))
   | ["rc", h] => toString (runeCount (fromHex h))
   | ["pdate", h] => let d := parseDate (fromHex h); s!"{d.y}-{d.m}-{d.d}"
-  | ["ptime", h] => let t := parseTime (fromHex h); s!"{t.h}-{t.m}"
+  | ["ptime", h] => let t := parseTime (fromHex h); s!"{t.h}-{t.m}-{if t.z then 1 else 0}"
   | ["fdate", y, m, d] => toHex (fmtDate ⟨parseNat y, parseNat m, parseNat d⟩)
-  | ["ftime", h, m] => toHex (fmtTime ⟨parseNat h, parseNat m⟩)
+  | ["ftime", h, m] => toHex (fmtTime ⟨parseNat h, parseNat m, false⟩)
   | ["b64", h] => match b64Go (fromHex h) with
     | some d => toHex d
     | none => "none"
@@ -35,6 +37,22 @@ def handle (line : String) : String :=
     match Spec.all.find? (fun p => p.1 == r) with
     | none => "bad-rec"
     | some p => toHex (render b64Go (Spec.toWrite p.2) (incl == "1") (parseVals vals).1)
+  | ["validate", r, frb, vals] =>
+    match findRec r, Gen.allRules.find? (fun p => p.1 == r) with
+    | some L, some p =>
+      let cx : VCtx := { codes := Gen.codes, write := L.write, b64 := b64Go, frb := frb == "1" }
+      match validate cx p.2 (parseVals vals).1 with
+      | (none, v) => "ok " ++ dumpVals (fieldKinds L) v
+      | (some f, _) => "reject " ++ f
+    | _, _ => "bad-rec"
+  | ["validateSpec", r, frb, vals] =>
+    match Spec.all.find? (fun p => p.1 == r), Spec.allRules.find? (fun p => p.1 == r) with
+    | some L, some p =>
+      let cx : VCtx := { codes := Spec.codes, write := Spec.toWrite L.2, b64 := b64Go, frb := frb == "1" }
+      match evalSites cx p.2 (parseVals vals).1 with
+      | (none, _) => "ok"
+      | (some f, _) => "reject " ++ f
+    | _, _ => "bad-rec"
   | ["parse", r, h] =>
     match findRec r with
     | none => "bad-rec"
